@@ -12,8 +12,9 @@
     operator that judged the modelled wires - and says whether the implementation-shaped model predicted them (DRIFT
     otherwise).
 
-Two families: "single" (one request; all plug-in orders / wrappings / overlap patterns) and "session" (2-3 requests over
-one transport; per-request header pattern per position, refresh-callback answers new / same / "" / None per position).
+Three families: "single" (one request; all plug-in orders / wrappings / overlap patterns), "session" (2-3 requests over
+one transport; per-request header pattern per position, refresh-callback answers new / same / "" / None per position) and
+"nesting" (the auth configuration as a tree: every nesting of CompositeAuth over plug-ins that overlap in what they set).
 """
 
 from __future__ import annotations
@@ -30,7 +31,7 @@ from .core import Check, run_tlc, tla
 LEVEL = "model_checking"
 
 KINDS = ["B", "KH", "KQ", "KC", "H", "O", "OR"]
-ACTIONS = ["Defaults", "PerRequest", "Refresh", "Plugin", "Shortcut", "Send", "Judge"]
+ACTIONS = ["Defaults", "PerRequest", "Enter", "Exit", "Refresh", "Plugin", "Shortcut", "Send", "Judge"]
 # hold for the code path as written
 HOLDING = ["TypeOK", "MachineIsModel", "KeyPlacement", "CallerArgsUntouched", "TokenFresh", "DefaultsAsConfigured", "RequestIsolation"]
 HOLDING_PROPS = ["DefaultsUnchanged"]
@@ -56,6 +57,7 @@ class Chunk:
     max_reqs: int
     first: str
     tied: bool
+    max_tree: int = 9
 
     @property
     def label(self) -> str:
@@ -68,6 +70,7 @@ def design_cfg(c: Chunk, variant: str, emit: bool, invariants: list[str], props:
 CONSTANTS
  MaxPlugins = {c.max_plugins}
  MaxReqs = {c.max_reqs}
+ MaxTreeLen = {c.max_tree}
  Family = {tla(c.family)}
  First = {tla(c.first)}
  Variant = {tla(variant)}
@@ -159,7 +162,7 @@ def complexity(sc: dict) -> int:
     n = 3 * len(sc["plugs"]) + (1 if sc["short"] else 0) + 4 * (len(sc["reqs"]) - 1)
     n += sum(1 for k in ("dflt", "ca") if sc[k] != "none") + sum(1 for k in ("kn", "hn") if sc[k] != "disjoint")
     n += sum(1 for r in sc["reqs"] if r != "none") + sum(1 for r in sc["rets"] if r != "new")
-    n += sum(1 for k in ("params", "cookies", "body") if sc[k]) + (1 if sc["wrap"] in ("composite", "nestL", "nestR") else 0)
+    n += sum(1 for k in ("params", "cookies", "body") if sc[k]) + sum(1 for t in sc["tree"] if t == "(")
     return n
 
 
@@ -203,6 +206,11 @@ NEGATIVES = [
      _at(0, lambda o: {**o, "defaults": o["defaults"] + [["X-Req", "r1-only"]]}), "C17.defaults_mutated"),
     ("token_wiped", lambda sc: sc["plugs"] == ["OR"] and sc["rets"] == ["new", "empty"] and sc["ca"] == "none",
      _at(1, lambda o: {**o, "headers": _set_header(o["headers"], "authorization", "Bearer ")}), "C17.token_stale"),
+    # nesting
+    ("nested_member_order", lambda sc: sc["plugs"] == ["B", "H"] and sc["tree"] == ["(", "(", "*", "*", ")", ")"],
+     _at(0, lambda o: {**o, "headers": _set_header(o["headers"], "authorization", "Bearer tok-b")}), "C17.plugin_order"),
+    ("earlier_key_wins", lambda sc: sc["plugs"] == ["KQ", "KQ2"] and sc["tree"] == ["(", "(", "*", "*", ")", ")"],
+     _at(0, lambda o: {**o, "query": [[k, "key-q" if v == "key-q2" else v] for k, v in o["query"]]}), "C17.plugin_order"),
     ("callback_shown_nothing", lambda sc: sc["plugs"] == ["OR"] and sc["rets"] == ["none", "new"] and sc["ca"] == "none",
      _at(1, lambda o: {**o, "refresh": ["<none>"]}), "C17.token_stale"),
 ]
@@ -347,7 +355,11 @@ def run(chk: Check) -> None:
         "body present iff cookies absent). Family 'session' (one transport, 2 requests; thorough also 3 requests and <=2 "
         "plug-ins): <=1 plug-in, every wrapping / shortcut, every combination of per-request header patterns per position, a "
         "per-request Authorization header on the first request {none, equal, case variant}, every script of refresh-callback "
-        "answers per position {new token, same token, '', None}, params / cookies / body on every request. Every scenario is "
+        "answers per position {new token, same token, '', None}, params / cookies / body on every request. Family 'nesting' (one "
+        "request): the auth configuration as a tree - EVERY nesting of CompositeAuth of <=9 tokens (thorough 11) and depth <=3, "
+        "incl. singleton and empty nested groups at any position, over every sequence of 2-3 (thorough 4) distinct plug-ins "
+        "that overlap in what they set ({Bearer, OAuth2, OAuth2+refresh, HeadersAuth(Authorization)}; two ApiKeyAuth of the same "
+        "location and name for header / query / cookie). Every scenario is "
         "replayed on the real HttpxTransport and every request of it judged; non-trivial = at least one plug-in or the "
         "shortcut or >1 request or defaults and per-request headers both present, distinct by scenario record"
     )
@@ -365,9 +377,11 @@ def run(chk: Check) -> None:
         # all sequences of <= 2 plug-ins with the body dimension free, then the 210 x 3 three-plug-in composites
         # partitioned by their first plug-in (body tied to the cookie dimension)
         singles = [Chunk("single", 2, 1, "any", False)] + [Chunk("single", 3, 1, k, True) for k in KINDS]
+        nestings = [Chunk("nesting", 4, 1, "any", True, 11)]
         sessions = [Chunk("session", 1, 2, "any", True), Chunk("session", 2, 2, "any", True), Chunk("session", 1, 3, "any", True)]
     else:
         singles = [Chunk("single", 2, 1, "any", True)]
+        nestings = [Chunk("nesting", 3, 1, "any", True, 9)]
         sessions = [Chunk("session", 1, 2, "any", True)]
     side = _SubScratch(chk, "side")
 
@@ -375,16 +389,19 @@ def run(chk: Check) -> None:
         sub = _SubScratch(chk, name)
         return [pipeline(sub, c) for c in chunks]
 
-    with ThreadPoolExecutor(max_workers=3) as pool:
+    with ThreadPoolExecutor(max_workers=4) as pool:
         # the side runs (coverage instance, "fixed" variant, broken variant) and the session lane proceed while the
         # single-request lane runs; all accounting happens here in the main thread
         f_singles = pool.submit(lane, "singles", singles)
         f_sessions = pool.submit(lane, "sessions", sessions)
+        f_nestings = pool.submit(lane, "nestings", nestings)
         f_side = [pool.submit(coverage_run, side), pool.submit(design_broken, side)]
-        f_side += [pool.submit(design_fixed, side, c) for c in sessions + singles]
+        f_side += [pool.submit(design_fixed, side, c) for c in nestings + sessions + singles]
         for b in f_singles.result():
             account(chk, b, design_dev)
         for b in f_sessions.result():
+            account(chk, b, design_dev)
+        for b in f_nestings.result():
             account(chk, b, design_dev)
         for fut in f_side:
             name, r, what, mode = fut.result()
